@@ -49,6 +49,8 @@ class ExprDoc:
                 kind = rng.choice(kinds) if kinds else None
                 if cascade and rng.random() < 0.15:
                     kind = "repoint-local"
+                elif profile == "dynamic" and doc_casts and t != ge.PTR and t != ge.MODE and rng.random() < 0.07:
+                    kind = "const-alias"
                 elif profile == "dynamic" and t in (ge.SLIST, ge.STR, ge.BOOL) and rng.random() < 0.1:
                     kind = "list-build"
                 elif profile == "dynamic" and not kinds and t in (ge.INT, ge.STR, ge.BOOL) and rng.random() < 0.06:
